@@ -85,7 +85,7 @@ func genU64Near(t *rapid.T, label string, base uint64) uint64 {
 }
 
 func genU32Near(t *rapid.T, label string, base uint32) uint32 {
-	switch weighted(t, label+".k", 70, 6, 6, 3, 3, 3, 2, 2, 2, 2, 4) {
+	switch weighted(t, label+".k", 70, 6, 6, 3, 3, 3, 2, 2, 2, 2, 6, 4) {
 	case 0:
 		return base
 	case 1:
@@ -106,6 +106,9 @@ func genU32Near(t *rapid.T, label string, base uint32) uint32 {
 		return 1<<32 - 1
 	case 9:
 		return 1<<32 - 2
+	case 10:
+		// every order of magnitude (see genU64Near)
+		return uint32(1)<<uint(rapid.IntRange(4, 30).Draw(t, label+".mag")) + uint32(rapid.IntRange(-1, 1).Draw(t, label+".off"))
 	}
 	return uint32(rapid.IntRange(0, 12).Draw(t, label+".small"))
 }
